@@ -42,7 +42,7 @@ func c11GenRelSubset(t *rapid.T, rels []string, label string) []string {
 
 func c11GenCase() *rapid.Generator[c11Case] {
 	return rapid.Custom(func(t *rapid.T) c11Case {
-		n := rapid.SampledFrom([]int{2, 3, 4, 5, 5, 6, 6, 7, 7, 7}).Draw(t, "n")
+		n := rapid.SampledFrom([]int{7, 6, 5, 7, 4, 6, 3, 7, 5, 2}).Draw(t, "n")
 		nrel := rapid.SampledFrom([]int{1, 2, 2, 3}).Draw(t, "nrel")
 		rels := c11RelNames[:nrel]
 		c := c11Case{N: n}
@@ -59,10 +59,10 @@ func c11GenCase() *rapid.Generator[c11Case] {
 		}
 		link := func(s, d int, rel string) {
 			op := c11Op{Kind: "link", Src: s, Dst: d, Rel: rel, W: 1}
-			if rapid.IntRange(0, 9).Draw(t, "w2") == 0 {
+			if rapid.IntRange(0, 9).Draw(t, "w2") == 7 {
 				op.W = 2
 			}
-			if rapid.IntRange(0, 7).Draw(t, "hasinv") == 0 {
+			if rapid.IntRange(0, 15).Draw(t, "hasinv") == 11 {
 				op.Inv = rapid.SampledFrom(rels).Draw(t, "inv")
 				known = append(known, c11Key{d, s, op.Inv})
 			}
@@ -81,7 +81,7 @@ func c11GenCase() *rapid.Generator[c11Case] {
 		}()).Draw(t, "perm")
 		switch shape {
 		case "chain", "ring", "two-way-chain":
-			l := rapid.IntRange(2, n).Draw(t, "chainlen")
+			l := n - rapid.IntRange(0, n-2).Draw(t, "chainshort") // rapid favours small draws: long chains are the common case
 			for i := 0; i+1 < l; i++ {
 				if shape == "two-way-chain" && rapid.Bool().Draw(t, "flip") {
 					link(perm[i+1], perm[i], relOf("rel"))
@@ -124,14 +124,14 @@ func c11GenCase() *rapid.Generator[c11Case] {
 					link(key.s, key.t, key.rel)
 				}
 			default: // unlink
-				op := c11Op{Kind: "unlink", Hard: rapid.IntRange(0, 3).Draw(t, "hard") == 0}
+				op := c11Op{Kind: "unlink", Hard: rapid.IntRange(0, 3).Draw(t, "hard") == 3}
 				if aimed {
 					key := rapid.SampledFrom(known).Draw(t, "unlink")
 					op.Src, op.Dst, op.Rel = key.s, key.t, key.rel
 				} else {
 					op.Src, op.Dst, op.Rel = rapid.IntRange(0, n-1).Draw(t, "s"), rapid.IntRange(0, n-1).Draw(t, "d"), rapid.SampledFrom(rels).Draw(t, "rel")
 				}
-				if rapid.IntRange(0, 9).Draw(t, "uinv") == 0 {
+				if rapid.IntRange(0, 15).Draw(t, "uinv") == 11 {
 					op.Inv = rapid.SampledFrom(rels).Draw(t, "inv")
 				}
 				c.Ops = append(c.Ops, op)
@@ -140,29 +140,75 @@ func c11GenCase() *rapid.Generator[c11Case] {
 
 		// queries
 		qrels := rels
-		if rapid.IntRange(0, 9).Draw(t, "strange-rel") == 0 {
+		if rapid.IntRange(0, 15).Draw(t, "strange-rel") == 13 {
 			qrels = append(append([]string{}, rels...), "zz") // a relation no edge has
+		}
+		// pairs that are >= 2 hops apart in the final graph (all relations), to aim half of the queries at
+		type pair struct{ s, t, d int }
+		var far []pair
+		var ends []int // nodes from which some node is >= 4 hops away (either direction)
+		{
+			lm, _ := c11LogicalModel(c)
+			g := lm.adj(n, 0, rels)
+			for s := 0; s < n; s++ {
+				d := g.dist(s, "out")
+				for x := 0; x < n; x++ {
+					if d[x] != c11Inf && d[x] >= 2 {
+						far = append(far, pair{s, x, d[x]})
+					}
+				}
+				u := g.dist(s, "both")
+				for x := 0; x < n; x++ {
+					if u[x] != c11Inf && u[x] >= 4 {
+						ends = append(ends, s)
+						break
+					}
+				}
+			}
 		}
 		nq := rapid.IntRange(7, 13).Draw(t, "nq")
 		for i := 0; i < nq; i++ {
 			api := rapid.SampledFrom([]string{"path", "path", "path", "path", "path", "sub", "sub", "search", "search", "trav"}).Draw(t, "api")
 			q := c11Query{API: api, Src: rapid.IntRange(0, n-1).Draw(t, "qs"), T: c11Time{Kind: "now"}}
+			aim := rapid.Bool().Draw(t, "aim")
 			switch api {
 			case "path":
 				q.Dst = rapid.IntRange(0, n-1).Draw(t, "qd")
-				if rapid.IntRange(0, 29).Draw(t, "norel") != 0 {
+				if rapid.IntRange(0, 63).Draw(t, "norel") != 41 {
 					q.Rels = c11GenRelSubset(t, qrels, "qrels")
 				}
 				q.Depth = rapid.SampledFrom([]int{0, 1, 1, 2, 2, 3, 3, 4, 5, 6}).Draw(t, "depth")
 				q.T = c11GenTime(t, len(c.Ops), "qt")
+				if aim && len(far) > 0 {
+					p := rapid.SampledFrom(far).Draw(t, "far")
+					q.Src, q.Dst = p.s, p.t
+					if rapid.IntRange(0, 3).Draw(t, "allrels") != 3 {
+						q.Rels = append([]string{}, rels...)
+					}
+					q.Depth = rapid.SampledFrom([]int{p.d, p.d - 1, (p.d + 1) / 2, p.d + 1, 0}).Draw(t, "fardepth")
+					if q.Depth < 0 {
+						q.Depth = 0
+					}
+				}
 			case "sub":
 				q.Rels = c11GenRelSubset(t, qrels, "qrels")
 				q.Depth = rapid.SampledFrom([]int{1, 1, 2, 2, 3, 4, 5, 6, 7}).Draw(t, "depth")
 				q.T = c11GenTime(t, len(c.Ops), "qt")
+				if aim && len(ends) > 0 {
+					q.Src = rapid.SampledFrom(ends).Draw(t, "end")
+					q.Rels = append([]string{}, rels...)
+					q.Depth = rapid.SampledFrom([]int{5, 4, 6, 7, 3}).Draw(t, "enddepth")
+				}
 			case "search":
 				q.Rels = c11GenRelSubset(t, qrels, "qrels")
 				q.Depth = rapid.SampledFrom([]int{1, 1, 2, 2, 3, 4, 5, 6, 7}).Draw(t, "depth")
 				q.Dir = rapid.SampledFrom([]string{"", "out", "in", "in", "both", "both"}).Draw(t, "dir")
+				if aim && len(ends) > 0 {
+					q.Src = rapid.SampledFrom(ends).Draw(t, "end")
+					q.Rels = append([]string{}, rels...)
+					q.Depth = rapid.SampledFrom([]int{5, 4, 6, 7, 3}).Draw(t, "enddepth")
+					q.Dir = rapid.SampledFrom([]string{"both", "out", "in"}).Draw(t, "enddir")
+				}
 			case "trav":
 				np := rapid.IntRange(1, 2).Draw(t, "npaths")
 				for j := 0; j < np; j++ {
@@ -186,8 +232,8 @@ func TestVerif_C11_graphs(t *testing.T) {
 	col := verifkit.New("C11", "graphs", c11Rule)
 	defer col.Finish()
 	defer func() {
-		col.Extra("engine_calls_under_watchdog", c11EngineCalls.Load())
-		col.Extra("queries_run", c11QueriesRun.Load())
+		col.Label("count:engine-calls-under-watchdog", int(c11EngineCalls.Load()))
+		col.Label("count:queries-run", int(c11QueriesRun.Load()))
 	}()
 
 	if p := verifkit.ReplayPath(); p != "" {
